@@ -26,6 +26,27 @@ fn check_err<T: Ord + Default>(num: T) -> Result<T> {
 
 pub fn pipe() -> Result<(File, File)> {
     let mut fds = [0 as c_int; 2];
+    // Where the system offers it, both ends are created close-on-exec, so
+    // that a process forked and exec-ed by another thread at this very
+    // moment does not inherit them.  (The copies a child makes with dup2()
+    // do not carry the flag.)
+    #[cfg(any(
+        target_os = "linux",
+        target_os = "android",
+        target_os = "freebsd",
+        target_os = "netbsd",
+        target_os = "openbsd",
+        target_os = "dragonfly"
+    ))]
+    check_err(unsafe { libc::pipe2(fds.as_mut_ptr(), libc::O_CLOEXEC) })?;
+    #[cfg(not(any(
+        target_os = "linux",
+        target_os = "android",
+        target_os = "freebsd",
+        target_os = "netbsd",
+        target_os = "openbsd",
+        target_os = "dragonfly"
+    )))]
     check_err(unsafe { libc::pipe(fds.as_mut_ptr()) })?;
     Ok(unsafe { (File::from_raw_fd(fds[0]), File::from_raw_fd(fds[1])) })
 }
